@@ -1,6 +1,7 @@
 mod addr;
 mod common;
 mod kv;
+mod reg;
 mod tree;
 
 use common::*;
@@ -20,6 +21,7 @@ fn run(id: &str, ctx: &Ctx) -> i32 {
         "C08" => tree::hist::run_c08(ctx),
         "C09" => tree::hist::run_c09(ctx),
         "C10" => tree::checks::run_c10(ctx),
+        "C11" => reg::run_c11(ctx),
         "C12" => tree::hist::run_c12(ctx),
         "C13" => tree::checks::run_c13(ctx),
         "C06" => kv::run_c06(ctx),
@@ -38,6 +40,7 @@ fn replay(path: &str) -> i32 {
     let case = &v["case"];
     match id.as_str() {
         "C01" | "C02" | "C03" | "C04" | "C05" | "C08" | "C09" | "C10" | "C12" | "C13" if case["engine"] == "tree" => tree::checks::replay(&ctx, case),
+        "C11" => reg::replay_c11(&ctx, case),
         "C06" => kv::replay_c06(&ctx, case),
         "C07" => kv::replay_c07(&ctx, case),
         "C18" => addr::replay_c18(&ctx, case),
